@@ -360,6 +360,12 @@ func (i *PostingsIterator) loadChunk(chunk int) error {
 	if i.includeLocs {
 		err := i.locReader.loadChunk(chunk)
 		if err != nil {
+			// the freq/norm reader has already moved to this chunk; forget it so
+			// that a later call loads both readers again instead of pairing it
+			// with a location reader that was never loaded
+			if i.includeFreqNorm {
+				i.freqNormReader.curChunkBytes = nil
+			}
 			return err
 		}
 	}
